@@ -44,6 +44,7 @@ func (c12) Thresholds(tier string) map[string]int64 {
 		"stops-nested-7-to-14-blocks-deep":          500,
 		"ends-followed-by-700-further-calls":        40,
 		"restore-after-end-revives":                 300,
+		"refused-restore-after-the-end":             300,
 		"end-with-ysgo-statements-left=0":           500,
 		"stop-with-words-reported-the-end":          1000,
 		"tail:absorbing-checked:A":                  500,
@@ -168,6 +169,39 @@ func (p c12) Run(c *core.Ctx) {
 				if diff != "" {
 					c.Violate("the end of the dialogue is not absorbing: "+diff, pair.Detail(pr.choices, model.Outcome{Kind: model.OEnd}, got, diff))
 					return
+				}
+			}
+			// ... and only a restore that SUCCEEDS ends that state: the host offers snapshots the runner may refuse
+			// (a node that does not exist; a variable entry without a value, which a runner may or may not accept).
+			// If RestoreAt returns an error the dialogue is still over; if it returns nil a restore took place and
+			// this part is skipped.
+			if c.R.Chance(1, 3) {
+				bad := pair.R.DR.Snapshot()
+				if c.R.Bool() {
+					bad.CurrentNode = "NoSuchNode"
+				} else {
+					if bad.Variables == nil {
+						bad.Variables = map[string]variable.Value{}
+					}
+					bad.Variables["zz_empty"] = variable.Value{}
+				}
+				if err := pair.R.RestoreAt(bad); err != nil {
+					pair.Trace = append(pair.Trace, "RestoreAt(a snapshot the runner refuses) = "+err.Error())
+					c.Feature("refused-restore-after-the-end")
+					for i := 0; i < 4; i++ {
+						arg := extraArgs[c.R.Intn(len(extraArgs))]
+						got := pair.R.Once(arg)
+						pair.Trace = append(pair.Trace, fmt.Sprintf("after the end and the refused restore: Next(%d) = %s", arg, got))
+						if got.Kind != mon.KEnd || len(pair.RLog.E) != logBefore {
+							diff := fmt.Sprintf("after a RestoreAt that returned an error, Next(%d) returned %s", arg, got)
+							c.Violate("the end of the dialogue is not absorbing: "+diff, pair.Detail(pr.choices, model.Outcome{Kind: model.OEnd}, got, diff))
+							return
+						}
+					}
+				} else if err2 := pair.R.RestoreAt(pair.R.DR.Snapshot()); err2 == nil {
+					// the odd snapshot was accepted: a restore took place; put both sides at the same node entry
+					pair.M.Restore(pair.M.Check.Clone())
+					delete(pair.M.Vars, "zz_empty")
 				}
 			}
 			// "until a snapshot is restored": the snapshot of the last node entry revives the runner
